@@ -9,6 +9,7 @@
    Rust semantics are explicit: u64 arithmetic wraps (mod 2^64), `as i64` from f64 saturates,
    `%` is the truncated remainder (Z.rem), `as u8/i8/u16/i16/i32` between integers wraps. *)
 From Coq Require Import ZArith List Bool.
+From C15 Require Import DeepCopy_C15.
 Import ListNotations.
 Local Open Scope Z_scope.
 
@@ -968,7 +969,11 @@ Definition step (c : cfg) (s : state) (o : op) : state * out :=
                 match read_bytes from_bi (Z.to_nat count_bytes) dt with
                 | Some chunk =>
                     match write_bytes to_bi chunk dt with
-                    | Some dt' => (set_data s1 (t_buf t) dt', ODone)
+                    | Some dt' =>
+                        (* utils.rs memmove: ptr::copy on a plain buffer; on a shared buffer the batched atomic copies,
+                           direction chosen by src < dest (DeepCopy_C15.memmove_shared; base address taken 8-aligned) *)
+                        let shared := match get_buf s1 (t_buf t) with Some bf => b_shared bf | None => false end in
+                        (set_data s1 (t_buf t) (if shared then memmove_shared 0 dt from_bi to_bi count_bytes else dt'), ODone)
                     | None => (s1, OPanic)
                     end
                 | None => (s1, OPanic)
